@@ -79,6 +79,8 @@ pub struct ConcParams {
     pub bare_ttl_pct: u64,
     /// extra time-thread activity (ticks / rotations) so that sweeps really run
     pub extra_sweeps: bool,
+    /// Pressure::Fits: the limit is the demanded weight plus 0..=fits_slack
+    pub fits_slack: i64,
 }
 
 impl ConcParams {
@@ -103,6 +105,7 @@ impl ConcParams {
             valueless_pct: 0,
             bare_ttl_pct: 0,
             extra_sweeps: false,
+            fits_slack: 30,
         }
     }
 }
@@ -135,7 +138,7 @@ pub fn gen_cfg(rng: &mut Rng, keys: u32, pressure: Pressure, ttl_possible: bool,
     let surcharge = if ttl_possible { 24 } else { 0 };
     let demand: i64 = ws.iter().map(|w| w + surcharge).sum();
     let weight = match pressure {
-        Pressure::Fits => demand + rng.range_i(0, 30),
+        Pressure::Fits => demand + rng.range_i(0, p.fits_slack.max(0)),
         Pressure::Tight => (demand - rng.range_i(0, demand / 3)).max(1),
         Pressure::Over => (demand / rng.range_i(2, 4)).max(1) + rng.range_i(0, 5),
     };
